@@ -5,7 +5,7 @@
    steps with the receive loop, any clock readings, any server frames) is a history of the client.
    [wire_out (elog s)] is the stream of messages written so far, NEWEST FIRST (head = last
    message written), so "StronglySorted R" reads: every message is R-related to all OLDER ones. *)
-From Coq Require Import ZArith List Bool Sorted.
+From Coq Require Import ZArith List Bool Sorted Lia.
 From MTV Require Import Client.Model Client.StepLemmas Client.SeqNo Client.Examples.
 Import ListNotations.
 Open Scope Z_scope.
@@ -61,6 +61,23 @@ Proof.
 Qed.
 Print Assumptions C10_lock_discipline.
 
+(* The clock is an input of every step that takes an id ([LStep a clk]: GenerateMessageId() read 4*clk), and
+   C10_wire_order quantifies over all label lists, hence over EVERY sequence of clock readings: advancing,
+   constant (two sends in one tick), decreasing (NTP step, VM resume).  What newMsgID makes of a reading: *)
+Theorem C10_id_generator : forall last clk,
+  last < fresh_id last clk /\
+  (last < 4 * clk -> fresh_id last clk = 4 * clk) /\
+  (4 * clk <= last -> fresh_id last clk = last + 4).
+Proof.
+  intros last clk. unfold fresh_id. cbv zeta. destruct (Z.leb_spec (4 * clk) last); repeat split; intros; lia.
+Qed.
+Print Assumptions C10_id_generator.
+
+(* a history in which the clock stands still and then goes back (readings 10 10 3 0): ids 40 44 48 52 *)
+Example C10_example_clock_behind :
+  option_map (fun s => map w_id (wire_out (elog s))) (run init ex_clock_behind) = Some [52; 48; 44; 40].
+Proof. vm_compute. reflexivity. Qed.
+
 (* Non-vacuity: Client/Examples.v [ex_completes] is a history with two callers, two requests and
    two acknowledgements on the wire (ids 40 44 48 80, seq_nos 1 3 4 6) ending at RRead. *)
 Example C10_example : exists s, run init ex_labels = Some s /\ rx s = RRead /\ length (wire_out (elog s)) = 4%nat.
@@ -99,24 +116,26 @@ Proof. exact reconnect_keeps_numbering. Qed.
 Print Assumptions C10_reconnect_keeps_numbering.
 
 (* acknowledgements: ERecv is logged once per DELIVERY (a message the server repeats, or sends with a
-   lower msg_id than an earlier one, is a new delivery), so each delivery with an odd seq_no is followed by
-   its own msgs_ack.  [failed s = 0]: no frame of the history ended in an error - such a frame is
-   abandoned together with the acknowledgements of the containers around it (that is the code: readMsg
-   returns the error before the ack is sent). *)
-Theorem C10_acks_live : forall c ls s, run2 (init2 c) ls = Some s -> failed s = O -> rx (base s) = RRead ->
+   lower msg_id than an earlier one, is a new delivery), for every message processResponse is entered for -
+   also one whose body cannot be decoded or handled (unregistered constructor, rpc_result nobody waits for,
+   bad_msg_notification): msg_id and seq_no come from the envelope.  Each delivery with an odd seq_no is
+   followed by its own msgs_ack; no side condition: a failing message no longer suppresses its own
+   acknowledgement, nor the ones of the messages around it.  (What the transport itself refuses - undecryptable
+   packet, 4-byte error code - has no msg_id the client could acknowledge and is not an ERecv.) *)
+Theorem C10_acks_live : forall c ls s, run2 (init2 c) ls = Some s -> rx (base s) = RRead ->
   forall post pre sid seq, elog (base s) = post ++ ERecv sid seq :: pre -> Z.odd seq = true ->
   exists w, In (ESent w) post /\ w_kind w = WAck sid.
 Proof.
-  intros c ls s H F R post pre sid seq E O. pose proof (InvD2_run _ _ _ H F) as D.
+  intros c ls s H R post pre sid seq E O. pose proof (InvD2_run _ _ _ H) as D.
   unfold InvD2b in D. rewrite R in D. simpl in D.
   assert (U : unacked (elog (base s)) = []) by (destruct (unacked (elog (base s))) as [|x l]; [auto|destruct (D x); left; auto]).
   destruct (unacked_sound _ _ U _ _ _ _ E O) as [[]|X]. exact X.
 Qed.
 Print Assumptions C10_acks_live.
 
-Theorem C10_acks_pending_live : forall c ls s o, run2 (init2 c) ls = Some s -> failed s = O ->
+Theorem C10_acks_pending_live : forall c ls s o, run2 (init2 c) ls = Some s ->
   owed2 (rx (base s)) = Some o -> incl (unacked (elog (base s))) o.
 Proof.
-  intros c ls s o H F E. pose proof (InvD2_run _ _ _ H F) as D. unfold InvD2b in D. rewrite E in D. exact D.
+  intros c ls s o H E. pose proof (InvD2_run _ _ _ H) as D. unfold InvD2b in D. rewrite E in D. exact D.
 Qed.
 Print Assumptions C10_acks_pending_live.
